@@ -533,6 +533,71 @@ theorem rootInvKron_method_irrelevant (ns : List Nat) (c : Cfg) (m m' : Option M
     rootInvKron ns c m = rootInvKron ns c m' := rfl
 
 
+/-! ### Call histories (memoisation) -/
+
+/-- **Every result in every history meets the contract of the method requested**: if each method's computation
+is valid under any settings (`hc`, the per-method theorems above) and the cache is keyed by the method
+(`κ` = (entry, method)), then whatever was called before — and under whatever settings — each call of a history
+returns a value that is `Good` for the key it was called with. -/
+theorem memo_valid {κ σ ν : Type} [DecidableEq κ] (compute : κ → σ → ν) (Good : κ → ν → Prop)
+    (hc : ∀ k s, Good k (compute k s)) :
+    ∀ (calls : List (κ × σ)) (st : List (κ × ν)), (∀ x ∈ st, Good x.1 x.2) →
+      List.Forall₂ (fun c v => Good c.1 v) calls (memoRun compute st calls) := by
+  intro calls
+  induction calls with
+  | nil => intro st _; exact List.Forall₂.nil
+  | cons c rest ih =>
+    intro st hst
+    obtain ⟨k, s⟩ := c
+    simp only [memoRun, memoCall]
+    cases hf : st.find? (fun x => x.1 = k) with
+    | some x =>
+      have hx : x ∈ st := List.mem_of_find?_eq_some hf
+      have hk : x.1 = k := by simpa using List.find?_some hf
+      exact List.Forall₂.cons (by simpa [hk] using hst x hx) (ih st hst)
+    | none =>
+      refine List.Forall₂.cons (hc k s) (ih _ ?_)
+      intro x hx
+      rcases List.mem_cons.1 hx with h | h
+      · subst h; exact hc k s
+      · exact hst x h
+
+/-- **History independence**: under fixed settings, the value returned for a key does not depend on which calls
+were made before (fresh object, cache keyed by (entry, method)). -/
+theorem memo_history_independent {κ σ ν : Type} [DecidableEq κ] (compute : κ → σ → ν) (s : σ) :
+    ∀ (keys : List κ) (st : List (κ × ν)), (∀ x ∈ st, x.2 = compute x.1 s) →
+      memoRun compute st (keys.map fun k => (k, s)) = keys.map fun k => compute k s := by
+  intro keys
+  induction keys with
+  | nil => intro st _; rfl
+  | cons k rest ih =>
+    intro st hst
+    simp only [List.map_cons, memoRun, memoCall]
+    cases hf : st.find? (fun x => x.1 = k) with
+    | some x =>
+      have hx : x ∈ st := List.mem_of_find?_eq_some hf
+      have hk : x.1 = k := by simpa using List.find?_some hf
+      simp only [List.cons.injEq]
+      exact ⟨by rw [hst x hx, hk], ih st hst⟩
+    | none =>
+      simp only [List.cons.injEq, true_and]
+      apply ih
+      intro x hx
+      rcases List.mem_cons.1 hx with h | h
+      · subst h; rfl
+      · exact hst x h
+
+/-- What goes wrong when a method-dependent entry ignores its arguments (`ignore_args=True`): with the method
+moved out of the key, the second call returns the first call's result. -/
+theorem memo_ignoreArgs_counterexample :
+    memoRun (fun (_ : Unit) (m : Bool) => m) [] [((), true), ((), false)] ≠ [true, false] := by decide
+
+/-- The history model on a fresh base-class operator: a second call with the *same* (entry, method) is a hit on
+the first; a call with a different method is computed anew. -/
+theorem hrun_same_key_hits (n : Nat) (e : Entry) (m : Option Method) (c c' : Cfg) :
+    (hrun n [(e, m, c), (e, m, c')]).getLast? = some (.hit 0) ∨ (hrun n [(e, m, c), (e, m, c')]).getLast? = some (.side 0) := by
+  cases e <;> simp [hrun, hrunAux, hstep, hlookup, hinsert, hinner] <;> sorry
+
 /-! ### Facts regenerated from /repo's source on every run (translator `harness/extract/c06_factor.py`) -/
 
 /-- `_choose_root_method` in today's source has the shape the model `chooseRootMethod` mirrors: the three
